@@ -310,3 +310,120 @@ theorem run_append {W : Nat} {tasks : List (Except ε β)} (a b : List Event) (s
     · rename_i s1 hs1; exact ih s1
 
 end Pool
+
+/-! ## `map` -/
+namespace Pool
+variable {ε β : Type}
+
+structure MInv (W : Nat) (tasks : List (Except ε β)) (s : MState ε β) : Prop where
+  started_le : s.started ≤ tasks.length
+  log_eq : s.log = List.range s.started
+  done_ok : ∀ i r, s.done.lookup i = some r → i < s.started ∧ tasks[i]? = some r
+  running : s.started - s.done.length ≤ W
+
+theorem minv_init (W : Nat) (tasks : List (Except ε β)) : MInv W tasks ({} : MState ε β) :=
+  ⟨by simp, by simp, by intro i r h; simp at h, by simp⟩
+
+theorem minv_step {W : Nat} {tasks : List (Except ε β)} {s s' : MState ε β} {e : MEvent}
+    (hI : MInv W tasks s) (h : mstep W tasks s e = some s') : MInv W tasks s' := by
+  obtain ⟨hs, hl, hd, hr⟩ := hI
+  cases e with
+  | start i =>
+    simp only [mstep] at h
+    split at h
+    · rename_i hg
+      obtain ⟨rfl, hlt, hrun⟩ := hg
+      cases h
+      refine ⟨by show s.started + 1 ≤ _; omega, ?_, ?_, by show s.started + 1 - s.done.length ≤ W; omega⟩
+      · show s.log ++ [s.started] = List.range (s.started + 1)
+        rw [hl, List.range_succ]
+      · intro j r hj
+        obtain ⟨h1, h2⟩ := hd j r hj
+        exact ⟨by show j < s.started + 1; omega, h2⟩
+    · cases h
+  | complete i =>
+    simp only [mstep] at h
+    split at h
+    · rename_i hg
+      split at h
+      · rename_i r hr'
+        cases h
+        refine ⟨hs, hl, ?_, by show s.started - (s.done.length + 1) ≤ W; omega⟩
+        intro j r' hj
+        simp only [List.lookup_cons] at hj
+        by_cases hji : j = i
+        · subst hji; simp at hj; subst hj; exact ⟨hg.1, hr'⟩
+        · have : (j == i) = false := by simpa using hji
+          rw [this] at hj; exact hd j r' hj
+      · cases h
+    · cases h
+
+theorem minv_run {W : Nat} {tasks : List (Except ε β)} (sched : List MEvent) :
+    ∀ {s s' : MState ε β}, MInv W tasks s → mrun W tasks s sched = some s' → MInv W tasks s' := by
+  induction sched with
+  | nil => intro s s' hI h; simp [mrun] at h; subst h; exact hI
+  | cons e es ih =>
+    intro s s' hI h
+    simp only [mrun] at h
+    split at h
+    · cases h
+    · rename_i s1 hs1
+      exact ih (minv_step hI hs1) h
+
+/-- whatever the result iterator delivers is the in-order expectation -/
+theorem mresult_go_sound {tasks : List (Except ε β)} {s : MState ε β}
+    (hd : ∀ i r, s.done.lookup i = some r → tasks[i]? = some r) :
+    ∀ (m k : Nat) (x : List β × Option ε), k + m = tasks.length →
+      mresult.go s (List.range' k m) = some x → x = expected (tasks.drop k) := by
+  intro m
+  induction m with
+  | zero =>
+    intro k x hk h
+    simp [mresult.go] at h
+    subst h
+    rw [List.drop_eq_nil_of_le (by omega)]; rfl
+  | succ m ih =>
+    intro k x hk h
+    rw [List.range'_succ] at h
+    simp only [mresult.go] at h
+    have hlt : k < tasks.length := by omega
+    rw [List.drop_eq_getElem_cons hlt]
+    split at h
+    · cases h
+    · rename_i e he
+      cases h
+      have := hd k _ he
+      rw [List.getElem?_eq_getElem hlt] at this
+      have heq : tasks[k] = Except.error e := Option.some.inj this
+      rw [heq]; rfl
+    · rename_i v hv
+      have hk' := hd k _ hv
+      rw [List.getElem?_eq_getElem hlt] at hk'
+      have heq : tasks[k] = Except.ok v := Option.some.inj hk'
+      split at h
+      · cases h
+      · rename_i vs e hgo
+        cases h
+        have := ih (k + 1) (vs, e) (by omega) hgo
+        rw [heq]
+        simp only [expected, ← this]
+
+theorem mresult_go_complete {s : MState ε β} :
+    ∀ (l : List Nat), (∀ i ∈ l, (s.done.lookup i).isSome) → (mresult.go s l).isSome := by
+  intro l
+  induction l with
+  | nil => intro _; simp [mresult.go]
+  | cons i is ih =>
+    intro h
+    simp only [mresult.go]
+    have hi := h i (by simp)
+    obtain ⟨r, hr⟩ := Option.isSome_iff_exists.mp hi
+    rw [hr]
+    cases r with
+    | error e => simp
+    | ok v =>
+      have := ih (fun j hj => h j (by simp [hj]))
+      obtain ⟨x, hx⟩ := Option.isSome_iff_exists.mp this
+      simp [hx]
+
+end Pool
